@@ -390,6 +390,19 @@ pub struct InflightState {
     pub(crate) timestamp: u64,
 }
 
+#[cfg(ckb_verif)]
+impl InflightState {
+    /// The peer the block is being downloaded from.
+    pub fn verif_peer(&self) -> PeerIndex {
+        self.peer
+    }
+
+    /// The time the request was recorded.
+    pub fn verif_timestamp(&self) -> u64 {
+        self.timestamp
+    }
+}
+
 impl InflightState {
     fn new(peer: PeerIndex) -> Self {
         Self {
